@@ -279,7 +279,7 @@ def ob_resolve(active: List[int], has: List[bool]) -> bool:
 STEP = [
     ("p/addn-5", "p"), ("p/addn", "p"), ("p/setv-7", "p"), ("p/let-w-abc", "p"), ("p/readv-u", "p"), ("p/add2-4-bb-r1-r2", "p"),
     ("p/ns-n2", "p"), ("p/ns-n2/tagged", "p/ns-n2"), ("p/addn-5/res.json", "p/addn-5"), ("p/s_state-9", "p"), ("p/one", "p"),
-    ("p/flag-fl", "p"), ("p/state_variable-u", "p"),
+    ("p/flag-fl", "p"), ("p/state_variable-u", "p"), ("p/ns-n2/ns-n3", "p/ns-n2"),
 ]
 
 
@@ -321,7 +321,8 @@ def ob_step(v: int, pvar: int, pvol: bool, ncmd: int) -> bool:
         elif name == "add2":
             ok = ok and out.data.v == (v, 4, "bb", ("r1", "r2"))
         elif name == "ns":
-            evars["active_namespaces"] = ["n2", "root"]
+            # the namespaces NAMED by this step (then root) - whatever was active before is replaced
+            evars["active_namespaces"] = ["n3", "root"] if q.endswith("ns-n3") else ["n2", "root"]
             ok = ok and out.data.v == v
         elif name == "tagged":
             ok = ok and out.data.v == v and CALLS == ["tagged"]
@@ -499,7 +500,7 @@ def obligations(tier):
     ]
     for s in SHAPES:
         obs.append(Ob("ob_arity", dict(shape=s), timeout=t, per_path=30, bounds="(a) arity 0..5 for shape %s" % s))
-    for i in (range(len(STEP)) if not q else [0, 2, 4, 5, 7, 8, 9, 10]):
+    for i in (range(len(STEP)) if not q else [0, 2, 4, 5, 7, 8, 9, 10, 13]):
         obs.append(Ob("ob_step", dict(q=i), timeout=t, per_path=60, twin_timeout=60, bounds="(c) Q=%s; symbolic data, variable, volatility, 0..2 earlier commands" % STEP[i][0]))
     for i in range(4):
         obs.append(Ob("ob_base", dict(q=i), timeout=t, per_path=60, twin_timeout=60, bounds="(c) base case %s with/without injected input / extra parameter" % ["one", "s_first-4", "addn-5", "s_first"][i]))
